@@ -68,32 +68,37 @@ def holdTid : Tid := 1000000
 def insertNew (acc : List Cfg) (c : Cfg) : List Cfg × Bool :=
   if acc.contains c then (acc, false) else (c :: acc, true)
 
+/-- with observer connections on the channels the connection is never the first subscriber on the node, so
+`addSubscription` makes no `Broker.Subscribe` call: the hub add is a silent step -/
+def tagE (observers : Bool) (s : State) (t : Thread) : Tag :=
+  if observers && t.pc == .sHubAdd then .silent else tagOf s t
+
 /-- all successors of `c` by one silent step (or a `close()` channel pick; or, when `tmo`, a
 wait-gate timeout) -/
-def silentSuccs (tmo : Bool) (c : Cfg) : List Cfg :=
+def silentSuccs (observers : Bool) (tmo : Bool) (c : Cfg) : List Cfg :=
   c.st.threads.foldl (init := []) fun acc (tid, t) =>
     let viaStep (o : Outcome) (acc : List Cfg) : List Cfg :=
       match next c.st (.step tid o) with
       | some s' => { c with st := s' } :: acc
       | none => acc
-    let acc := match tagOf c.st t with
+    let acc := match tagE observers c.st t with
       | .silent => viaStep .ok acc
       | .pick => t.pending.foldl (fun a ch => viaStep (.pick ch) a) acc
       | _ => acc
     if tmo && t.pc == .uWait then viaStep .tmo acc else acc
 
-def closureFuel (tmo : Bool) : Nat → List Cfg → List Cfg → List Cfg
+def closureFuel (observers : Bool) (tmo : Bool) : Nat → List Cfg → List Cfg → List Cfg
   | 0, _, seen => seen
   | fuel + 1, frontier, seen =>
     if frontier.isEmpty then seen else
     let (seen', new) := frontier.foldl (init := (seen, [])) fun (sn, nw) c =>
-      (silentSuccs tmo c).foldl (init := (sn, nw)) fun (sn, nw) c' =>
+      (silentSuccs observers tmo c).foldl (init := (sn, nw)) fun (sn, nw) c' =>
         if sn.contains c' then (sn, nw) else (c' :: sn, c' :: nw)
-    closureFuel tmo fuel new seen'
+    closureFuel observers tmo fuel new seen'
 
-def closure (tmo : Bool) (cs : List Cfg) : List Cfg :=
+def closure (observers : Bool) (tmo : Bool) (cs : List Cfg) : List Cfg :=
   let start := cs.foldl (fun acc c => (insertNew acc c).1) []
-  closureFuel tmo 4000 start start
+  closureFuel observers tmo 4000 start start
 
 def resolve (c : Cfg) (name : String) : Option (Tid × Thread) :=
   if name.startsWith "x" then
@@ -105,6 +110,7 @@ def resolve (c : Cfg) (name : String) : Option (Tid × Thread) :=
 
 structure Env where
   chans : List String
+  observers : Bool := false
 
 def chanIdx (e : Env) (name : String) : Option Nat := e.chans.idxOf? name
 
@@ -137,8 +143,8 @@ def parseKind : String → Option Kind
 def parseOutcome : String → Option Outcome
   | "ok" => some .ok | "fail" => some .fail | "faildisc" => some .failDisc | _ => none
 
-def quiescent (c : Cfg) : Bool :=
-  c.st.threads.all fun (_, t) => match tagOf c.st t with
+def quiescent (observers : Bool) (c : Cfg) : Bool :=
+  c.st.threads.all fun (_, t) => match tagE observers c.st t with
     | .silent | .pick | .obs _ => false
     | _ => true
 
@@ -159,12 +165,12 @@ def stepEvent (e : Env) (cs : List Cfg) (ev : String) : Option (List Cfg) :=
     | some k =>
       let chI := (chanIdx e ch).getD 0
       let o : Opts := ⟨pj.contains 'p', pj.contains 'j'⟩
-      some <| (closure true cs).filterMap fun c =>
+      some <| (closure e.observers true cs).filterMap fun c =>
         match next c.st (.spawn k chI o) with
         | some s' => some { st := s', names := (a, c.st.nextTid) :: c.names }
         | none => none
   | ["arrive", a, tag, _ch] =>
-    some <| (closure true cs).filter fun c =>
+    some <| (closure e.observers true cs).filter fun c =>
       match resolve c a with
       | some (_, t) => tagOf c.st t == .gate tag
       | none => false
@@ -172,7 +178,7 @@ def stepEvent (e : Env) (cs : List Cfg) (ev : String) : Option (List Cfg) :=
     match parseOutcome out with
     | none => none
     | some o =>
-      some <| (closure true cs).filterMap fun c =>
+      some <| (closure e.observers true cs).filterMap fun c =>
         match resolve c a with
         | some (tid, t) =>
           if tagOf c.st t == .gate tag then
@@ -185,7 +191,7 @@ def stepEvent (e : Env) (cs : List Cfg) (ev : String) : Option (List Cfg) :=
     match parseOutcome out with
     | none => none
     | some o =>
-      some <| (closure true cs).filterMap fun c =>
+      some <| (closure e.observers true cs).filterMap fun c =>
         match resolve c a with
         | some (tid, t) =>
           if tagOf c.st t == .obs "bsub" then
@@ -195,23 +201,23 @@ def stepEvent (e : Env) (cs : List Cfg) (ev : String) : Option (List Cfg) :=
           else none
         | none => none
   | ["done", a, ret] =>
-    some <| (closure true cs).filter fun c =>
+    some <| (closure e.observers true cs).filter fun c =>
       match resolve c a with
       | some (_, t) => t.pc == .done && expectedRet t == ret
       | none => false
   | ["anon", _] => some cs
   | ["hold"] =>
-    some <| (closure true cs).filterMap fun c =>
+    some <| (closure e.observers true cs).filterMap fun c =>
       if c.st.connectMu.isNone then some { c with st := { c.st with connectMu := some holdTid } } else none
   | ["unhold"] =>
-    some <| (closure true cs).filterMap fun c =>
+    some <| (closure e.observers true cs).filterMap fun c =>
       if c.st.connectMu == some holdTid then some { c with st := { c.st with connectMu := none } } else none
   | "obs" :: rest =>
     let σ := " ".intercalate rest
-    some <| (closure true cs).filter fun c => quiescent c && project e c.st == σ
+    some <| (closure e.observers true cs).filter fun c => quiescent e.observers c && project e c.st == σ
   | "final" :: rest =>
     let σ := " ".intercalate (rest.takeWhile (· ≠ "|"))
-    some <| (closure true cs).filter fun c => settled c && project e c.st == σ
+    some <| (closure e.observers true cs).filter fun c => settled c && project e c.st == σ
   | _ => none
 
 def showJL (s : State) : String :=
@@ -228,7 +234,7 @@ def runEvents (e : Env) : List String → Nat → List Cfg → String
     match stepEvent e cs ev with
     | none => s!"reject i={i} malformed ev={ev}"
     | some [] =>
-      let before := closure true cs
+      let before := closure e.observers true cs
       let sample := match before with
         | c :: _ => project e c.st ++ " panicked=" ++ toString c.st.panicked
         | [] => "<empty>"
@@ -304,6 +310,10 @@ def explore (ws : List String) : String :=
 
 def step (line : String) : String :=
   match words line with
+  | "trace+obs" :: chans :: rest =>
+    let e : Env := { chans := chans.splitOn ",", observers := true }
+    let evs := ((" ".intercalate rest).splitOn ";").map (fun x => (x.trimAscii).toString)
+    runEvents e evs 0 [{ st := State.init, names := [] }]
   | "trace" :: chans :: rest =>
     let e : Env := { chans := chans.splitOn "," }
     let evs := ((" ".intercalate rest).splitOn ";").map (fun x => (x.trimAscii).toString)
